@@ -142,25 +142,33 @@ func (b *exampleBuilder) buildExampleForMixedValueNode(node *ischema.MixedValueN
 		return nil, errs.ErrLoader.F()
 	}
 
-	typeName := tt[0]
-	if !bytes.NewBytes(typeName).IsUserTypeName() {
+	if !bytes.NewBytes(tt[0]).IsUserTypeName() {
 		return node.Value().Data(), nil
 	}
 
-	if cnt := b.processedTypes[typeName]; cnt > 1 {
-		// Do not process already processed type more than twice.
-		return nil, nil
-	}
+	// The first alternative that is not being expanded twice already: a choice
+	// like `@list | @end` ends a recursion with its other alternative instead of
+	// leaving the member out.
+	for _, typeName := range tt {
+		if cnt := b.processedTypes[typeName]; cnt > 1 {
+			// Do not process already processed type more than twice.
+			continue
+		}
 
+		t, ok := b.types[typeName]
+		if !ok {
+			return nil, errs.ErrUserTypeNotFound.F(typeName)
+		}
+		return b.buildType(typeName, t)
+	}
+	return nil, nil
+}
+
+func (b *exampleBuilder) buildType(typeName string, t ischema.Type) ([]byte, error) {
 	b.processedTypes[typeName]++
 	defer func() {
 		b.processedTypes[typeName]--
 	}()
-
-	t, ok := b.types[typeName]
-	if !ok {
-		return nil, errs.ErrUserTypeNotFound.F(typeName)
-	}
 	return b.Build(t.Schema.RootNode())
 }
 
